@@ -243,6 +243,12 @@ const NUMS: &[Num] = &[
     Num::F(2000.5),
     Num::F(0.001),
     Num::F(-1234.5678),
+    // whole numbers that only a float holds: the documented conversion prints the shortest digits, not the exact integer
+    Num::F(9223372036854775808.0),
+    Num::F(36028797018963968.0),
+    Num::F(-72057594037927952.0),
+    Num::F(1e21),
+    Num::F(9007199254740993.0),
     Num::Dec(200050, -2),
     Num::Dec(1, 6),
     Num::Dec(-5, -3),
